@@ -9,6 +9,7 @@
 #include <hdf5.h>
 #include <climits>
 #include <fstream>
+#include <algorithm>
 #include <sys/time.h>
 #include "vf.hpp"
 
@@ -128,6 +129,7 @@ int main(int argc, char **argv) {
                 f.close();
             }, &what);
             vf::count("opens");
+            if (getenv("VF_DEBUG")) fprintf(stderr, "C10 debug: stored %s %s%s -> %s (%s) expect %d\n", vs(v).c_str(), mode_name(m), force ? "+Force" : "", opened ? "opened" : "refused", opened ? vs(seen).c_str() : exc.c_str(), (int)expect);
             std::string cls = std::string(v[0] == L[0] ? "x=" : v[0] < L[0] ? "x<" : "x>") + (v[1] == L[1] ? "y=" : v[1] < L[1] ? "y<" : "y>") + (v[2] == L[2] ? "z=" : v[2] < L[2] ? "z<" : "z>");
             vf::distinct("outcomes", cls + mode_name(m) + (force ? "F" : "-") + (opened ? "open" : exc));
             vf::distinct("cases", vs(v) + mode_name(m) + (force ? "F" : "-"));
@@ -188,6 +190,30 @@ int main(int argc, char **argv) {
                 else if (opened && m != FileMode::Overwrite && (seen != v || nblocks != 1))
                     vf::violation(std::string("C10|File::version|") + mode_name(m) + "|version stored as " + st.name + "|differs from stored triple or content lost", ctx + " version()=" + vs(seen) + " blocks=" + std::to_string(nblocks));
             }
+        }
+    }
+
+    // ---- the same path re-planted with one triple after the other and opened in ONE mode back to back (a converter upgrading a file in
+    //      place and looking again): every open must answer for the triple that is stored NOW
+    for (FileMode m : {FileMode::ReadOnly, FileMode::ReadWrite}) for (int rev = 0; rev < 2; rev++) {
+        long ci = idx++;
+        if (!vf::take_case(ci)) continue;
+        vf::case_desc(std::string("one path, every triple of the cube planted in turn (") + (rev ? "descending" : "ascending") + "), opened " + mode_name(m) + " each time");
+        std::string p = vf::scratch_file("inplace.h5");
+        copy_file(base, p);
+        std::vector<V3> order = cube;
+        if (rev) std::reverse(order.begin(), order.end());
+        for (const V3 &v : order) {
+            if (!set_version_attr(p, v)) { vf::violation("C10|File::open|the file of an earlier (refused or closed) open is still held open by the library|version attribute cannot be rewritten", "in-place part, stored=" + vs(v)); break; }
+            bool expect = (m == FileMode::ReadOnly && v[0] == L[0] && v[1] <= L[1]) || (m == FileMode::ReadWrite && v == L);
+            bool opened = false; V3 seen; std::string what;
+            std::string exc = vf::guarded([&] { File f = File::open(p, m); opened = true; seen = f.version(); f.close(); }, &what);
+            vf::count("opens_inplace");
+            std::string ctx = std::string(mode_name(m)) + " stored=" + vs(v) + " (re-planted in place) lib=" + vs(L);
+            if (opened != expect)
+                vf::violation(std::string("C10|File::open|") + mode_name(m) + "|triple rewritten in place since the previous open of the same path|" + (expect ? "refused but must open" : "opened but must be refused"), ctx + ": " + (opened ? "opened" : "refused (" + exc + ": " + what + ")"));
+            else if (opened && seen != v)
+                vf::violation(std::string("C10|File::version|") + mode_name(m) + "|triple rewritten in place since the previous open of the same path|differs from stored triple", ctx + " version()=" + vs(seen));
         }
     }
 
